@@ -130,6 +130,13 @@ func genID(r *Rng, malformed bool) []byte {
 		if malformed {
 			return []byte(":")
 		}
+	case 3:
+		// ids as long as real chains have them (64 hex characters), and longer ones: the text of a cursor has no bound
+		return []byte(fmt.Sprintf("%016x%016x%016x%016x", r.U64(), r.U64(), r.U64(), r.U64()))
+	case 4:
+		if r.Intn(3) == 0 {
+			return []byte(strings.Repeat(fmt.Sprintf("%016x", r.U64()), 6+r.Intn(6)))
+		}
 	}
 	n := 1 + r.Intn(3)
 	var sb strings.Builder
